@@ -852,6 +852,48 @@ def check_identity(program, rep):
     statement needs."""
     disp = evrules.dispatcher_class(program)
     f = program.method('EventDispatcher', 'add_handler', inherited=False)
+    # the identity reference itself: its equality may ask whether the referent
+    # is GONE (`is None`), never whether it is truthy - a live handler that is
+    # an empty container would compare like a dead one: is_handler() denies
+    # it, remove_handler() finds nothing, a second add_handler() duplicates
+    for cname_, modname_ in (getattr(program, 'identity_refs', None)
+                             or {}).items():
+        cd_ = [n for n in program.modules[modname_].tree.body
+               if isinstance(n, ast.ClassDef) and n.name == cname_][0]
+        for m_ in [n for n in cd_.body if isinstance(n, ast.FunctionDef)
+                   and n.name in ('__eq__', '__ne__', '__hash__')]:
+            derefs = {t.id for a_ in ast.walk(m_) if isinstance(a_, ast.Assign)
+                      and isinstance(a_.value, ast.Call) and isinstance(
+                          a_.value.func, ast.Name) and not a_.value.args
+                      for t in a_.targets if isinstance(t, ast.Name)}
+            for x in ast.walk(m_):
+                tests = []
+                if isinstance(x, (ast.If, ast.IfExp, ast.While)):
+                    tests.append(x.test)
+                if isinstance(x, ast.BoolOp):
+                    tests += x.values
+                if isinstance(x, ast.UnaryOp) and isinstance(x.op, ast.Not):
+                    tests.append(x.operand)
+                for t_ in tests:
+                    if isinstance(t_, ast.UnaryOp) and isinstance(
+                            t_.op, ast.Not):
+                        t_ = t_.operand
+                    if (isinstance(t_, ast.Name) and t_.id in derefs) or (
+                            isinstance(t_, ast.Call) and isinstance(
+                                t_.func, ast.Name) and t_.func.id in (
+                                    'self', 'other') and not t_.args):
+                        rep.bad('C03.identity',
+                                f'{program.modules[modname_].relpath}:'
+                                f'{cname_}.{m_.name}', x,
+                                f'{cname_}.{m_.name} decides by the TRUTH '
+                                'VALUE of the referent: a registered handler '
+                                'that is alive but falsy (an empty container '
+                                'component, __bool__ False) compares like a '
+                                'dead one - is_handler() denies it, '
+                                'remove_handler() leaves it registered, a '
+                                'second add_handler() doubles its deliveries',
+                                line=x.lineno)
+                        return
     if getattr(program, 'identity_refs', None) and any(
             'identity-comparing reference class' in l and f.where in l
             for l in program.normalised):
